@@ -39,11 +39,11 @@ def prepare(tier):
     irsym.prepare()
 
 
-def _grid(r, c, tier, rnd, eng):
+def _grid(r, c, tier, rnd, eng, kind='cost'):
     out = []
     big = 4 if tier == 'quick' else 5
     base = {'window': None, 'pen': False, 'psi': None, 'step': False, 'md': False, 'keep': True, 'neg': True}
-    fork_ok = r * c <= (9 if tier == 'quick' else 12)
+    fork_ok = r * c <= ((9 if (eng, kind) == ('py', 'cost') else 6) if tier == 'quick' else 12)
     wins = dtwh.windows(r, c)
     psis = dtwh.psi_options(r, c, tier, rnd, nrandom=2)
     if r > 3 or c > 3:
@@ -76,7 +76,7 @@ def tasks(tier, seed):
                 if tier == 'quick' and (eng, kind) in (('py', 'sq'), ('c', 'abs')) and (r > 3 or c > 3):
                     continue
                 rnd = random.Random(seed * 31 + r * 7 + c)
-                grid = _grid(r, c, tier, rnd, eng)
+                grid = _grid(r, c, tier, rnd, eng, kind)
                 chunk, est = [], 0
                 lim = 1500 if tier == 'quick' else 6000
                 for o in grid:
@@ -137,10 +137,9 @@ def run_task(cfg):
     act = active_regions(ID)
     for o in [_unopt(x) for x in cfg['opts']]:
         pp = spec.norm_psi(o['psi'])
-        if eng == 'c' and 'F04-c-psi-window' in act and (o['window'] is not None or r != c) and (pp[1] > 0 or pp[3] > 0):
+        if eng == 'c' and 'F04-c-psi-window' in act and (o['window'] is not None or r != c or o['md']) and (pp[1] > 0 or pp[3] > 0):
             continue        # known finding: excluded region
-        if eng == 'c' and 'F04-c-maxdist' in act and o['md']:
-            continue
+        skip_d = eng == 'c' and 'F04-c-maxdist' in act and o['md']      # known finding: returned distance only
         if eng == 'c' and 'F04-c-clamped-width' in act and o['window'] is not None and o['window'] < max(r, c) \
                 and abs(r - c) + 2 * o['window'] + 1 >= c + 1:
             continue
@@ -191,7 +190,7 @@ def run_task(cfg):
                 if not w.direct_full or True:
                     ex = ckern.expand(w)
                     sl.append(('expand', (0, r + 1, 0, c + 1), ex))
-                    for (rb, re_, cb, ce) in slices:
+                    for (rb, re_, cb, ce) in ([] if (o['md'] or o['step']) else slices):
                         sl.append(('slice', (rb, re_, cb, ce), ckern.expand_slice(w, rb, re_, cb, ce)))
                 return w.d, full, (r + 1, c + 1), sl
         ex = pysym.Explorer(assume, max_paths=3000, stats=stats)
@@ -269,7 +268,7 @@ def run_task(cfg):
                 negd = z3.And(z3.Not(smt._b(final.inf)), final.val < thr)
             else:
                 negd = z3.Or(smt.er_neq(got, final), final.val > thr)
-            cx = dtwh.claim(stats, facts, negd, mode, syms, dict(meta, claim='returned distance equals the distance-only result'), lemmas=lem)
+            cx = None if skip_d else dtwh.claim(stats, facts, negd, mode, syms, dict(meta, claim='returned distance equals the distance-only result'), lemmas=lem)
             if cx == 'unknown':
                 incon += 1
             elif cx is not None:
